@@ -196,6 +196,31 @@ def run(ctx):
     ctx.traces += n_scan
     ctx.notes["pescan"] = {"probe_vectors_replayed": n_scan, "skipped_by_precondition": skipped_scan}
 
+    # ---- the PE artifacts and the deduced version are also reported when the configuration is found through the Guardrails
+    # path, raw and inside a XorEncoded stage (the artifacts are those of the decoded image)
+    from dissect.cobaltstrike import beacon as beacon_mod
+    from dissect.cobaltstrike import version as version_mod
+    from vt.checks import c17
+    from vt.ref import guard as refguard
+
+    rngg = random.Random(ctx.seed + 181)
+    for container in ("xorenc", "xorenc", "raw"):
+        for pos in ("zero", "mid", "end"):
+            key_ = bytes(rngg.randrange(1, 256) for _ in range(rngg.choice([5, 16, 33])))
+            area, _stored = refguard.protect(c17.body_bytes(), key_, ["user"])
+            data, _off, _dec = c17.embed(area, container, pos, rngg.randrange(1 << 30))
+            o = core.guarded(lambda: (lambda c: (None if c.pe_compile_stamp is None else int(c.pe_compile_stamp), None if c.pe_export_stamp is None else int(c.pe_export_stamp),
+                                                 c.architecture, str(c.version), c.guardrails is not None))(beacon_mod.BeaconConfig.from_bytes(data)), seconds=120)
+            ctx.evaluations += 1
+            if container == "xorenc":
+                want_version = str(version_mod.BeaconVersion.from_pe_export_stamp(0x5FA0B201))
+                ok_ = o[0] == "ok" and o[1][:2] == (0x5F112233, 0x5FA0B201) and o[1][2] in ("x86", "x64") and o[1][3] == want_version and o[1][4]
+            else:
+                ok_ = o[0] == "ok" and o[1][:3] == (None, None, None) and o[1][4]
+            if not ok_:
+                viol("BeaconConfig.from_bytes (Guardrails path)", "pe_artifacts", {"container": container, "pos": pos, "got": str(o)[:300]})
+            ctx.count_distinct(("guardrails_artifacts", container, pos))
+
     # ---- code -> spec: version strings and deduction, judged by TLC against the live tables
     ev = []
     months = ["Jan", "Feb", "Mar", "Apr", "May", "Jun", "Jul", "Aug", "Sep", "Oct", "Nov", "Dec"]
